@@ -324,6 +324,8 @@ def kernel_obligations(tier):
                 seen.add(repr(nb))
                 try:
                     formgen.build(nb, vform=vf).finalize()
+                    if not formgen.is_multilinear(nb, vform=vf):
+                        continue          # e.g. u*u: not a bilinear form, outside the property
                 except Exception:
                     continue
                 specs.append(nb)
